@@ -13,3 +13,21 @@ Proof.
   intros cs. exact (laplace_l2_op_q1_psd t L xs cs d HL Hw Hd).
 Qed.
 Print Assumptions C02_ridge_unique_default_kernel.
+
+(* ... and for every CPU kernel on its whole valid exponent range (C05c) *)
+Require Import XV.Real.PsdGeneral2 XV.Real.PsdGeneral.
+Theorem C02_ridge_unique_l2_any_exponent : forall t L q (reg : R) xs d a b, 0 < q <= 2 -> 0 < L -> wf_tmat t d -> Forall (fun x => length x = d) xs -> 0 < reg ->
+  length a = length xs -> length b = length xs ->
+  mvR (add_diagR reg (gram (laplace_l2 t L q) xs)) a = mvR (add_diagR reg (gram (laplace_l2 t L q) xs)) b -> a = b.
+Proof. intros t L q reg xs d a b Hq HL Hw Hd Hr Ha Hb. apply ridge_unique_of_psd; try assumption. intros cs. exact (laplace_l2_op_psd_all_q t L q xs cs d Hq HL Hw Hd). Qed.
+Theorem C02_ridge_unique_product_any_exponent : forall t L q (reg : R) xs d a b, 0 < q <= 2 -> 0 < L -> wf_tmat t d -> Forall (fun x => length x = d) xs -> 0 < reg ->
+  length a = length xs -> length b = length xs ->
+  mvR (add_diagR reg (gram (laplace_product t L q) xs)) a = mvR (add_diagR reg (gram (laplace_product t L q) xs)) b -> a = b.
+Proof. intros t L q reg xs d a b Hq HL Hw Hd Hr Ha Hb. apply ridge_unique_of_psd; try assumption. intros cs. exact (laplace_product_op_psd_all_q t L q xs cs d Hq HL Hw Hd). Qed.
+Theorem C02_ridge_unique_lpq_whole_range : forall t L p q (reg : R) xs d a b, 0 < q <= p -> p <= 2 -> 0 < L -> wf_tmat t d -> Forall (fun x => length x = d) xs -> 0 < reg ->
+  length a = length xs -> length b = length xs ->
+  mvR (add_diagR reg (gram (laplace_lpq t L p q) xs)) a = mvR (add_diagR reg (gram (laplace_lpq t L p q) xs)) b -> a = b.
+Proof. intros t L p q reg xs d a b Hq Hp HL Hw Hd Hr Ha Hb. apply ridge_unique_of_psd; try assumption. intros cs. exact (laplace_lpq_op_psd t L p q xs cs d Hq Hp HL Hw Hd). Qed.
+Print Assumptions C02_ridge_unique_l2_any_exponent.
+Print Assumptions C02_ridge_unique_product_any_exponent.
+Print Assumptions C02_ridge_unique_lpq_whole_range.
